@@ -281,6 +281,19 @@ class _Gen:
             expr = self.pick([f"({p.text} is None) or ({expr})", f"({expr}) or ({p.text} is not None)",
                               f"not ({p.text} is None) or ({expr})"])
             uses_opt = True
+            opt_paths = [q for q in opt_paths if q is not p]
+        # None-tests as operands of a comparison: "both or neither" / "exactly one" of two optional properties
+        if len(opt_paths) >= 2 and self.chance(0.2):
+            i = self.draw(st.integers(0, len(opt_paths) - 1))
+            j = self.draw(st.integers(0, len(opt_paths) - 2))
+            j = j if j < i else j + 1
+            p, q = opt_paths[i], opt_paths[j]
+            if p.guards[0] != q.guards[0]:
+                t1 = self.pick(["is None", "is not None"])
+                t2 = self.pick(["is None", "is not None"])
+                cmp_ = f"({p.text} {t1}) {self.pick(['==', '!=', '=='])} ({q.text} {t2})"
+                expr = self.pick([f"({cmp_}) and ({expr})", f"({cmp_}) or ({expr})", f"({expr}) or ({cmp_})"])
+                uses_opt = True
         return expr, {"form": "general", "uses_optional": uses_opt}
 
 
